@@ -4,6 +4,7 @@ use core::mem;
 use dashu_base::{ExtendedGcd, Gcd};
 
 use crate::{
+    add,
     arch::word::{DoubleWord, SignedDoubleWord, SignedWord, Word},
     cmp::cmp_in_place,
     div,
@@ -405,11 +406,18 @@ pub fn gcd_ext_in_place(
                     &t1[..t1_len],
                 );
             }
+            // t0 can have one word more than q*t1: after a lehmer step that ends with x <= y the
+            // swapped cofactors satisfy t0 > t1, and the next quotient can be a single small word.
+            // The carry has to be added into these upper words (they must not be overwritten).
+            let t0_top = t0_len.max(qt1_len);
+            if t0_top > qt1_len {
+                t_carry = add::add_word_in_place(&mut t0[qt1_len..t0_top], t_carry) as Word;
+            }
             if t_carry > 0 {
-                t0[qt1_len] = t_carry;
-                t0_len = qt1_len + 1;
+                t0[t0_top] = t_carry;
+                t0_len = t0_top + 1;
             } else {
-                t0_len = locate_top_word_plus_one(&t0[..qt1_len]);
+                t0_len = locate_top_word_plus_one(&t0[..t0_top]);
             }
 
             // swap: (x, y) = (y, r)
